@@ -50,25 +50,28 @@ def tridiagqr_groups(report):
            ("shift-copy", r"m_R_diag\.array\(\) = m_T_diag\.array\(\) - m_shift;", "HAVOC_VEC(m_R_diag);", {"max": 1}),
            ("supd-copy", r"m_R_supd\.noalias\(\) = m_T_subd;", "__CPROVER_assert(VEC_SIZE(m_R_supd) == VEC_SIZE(m_T_subd), @Q@Eigen: assignment needs equal sizes@Q@); HAVOC_VEC(m_R_supd);", {"max": 1}),
            ("data", r"\b(m_rot_cos|m_rot_sin)\.data\(\)", r"\1", {"min": 2, "max": 2}),
-           ("this", r"this->compute_rotation\(m_R_diag\.coeff\(i\), m_T_subd\.coeff\(i\), r, \*c, \*s\);", "compute_rotation(m_R_diag[i], m_T_subd[i], &r, c, s);", {"max": 1}),
+           # the walking pointers c, s are loop-assigned: CBMC cannot dereference them after the loop havoc, so every use goes through PTRI, which
+           # asserts `p == base + i` (provable from the loop invariant) and yields base + i
+           ("this", r"this->compute_rotation\(m_R_diag\.coeff\(i\), m_T_subd\.coeff\(i\), r, \*c, \*s\);",
+            "compute_rotation(m_R_diag[i], m_T_subd[i], &r, PTRI(c, m_rot_cos, i), PTRI(s, m_rot_sin, i));", {"max": 1}),
+           ("deref-c", r"\(\*c\)", "(*PTRI(c, m_rot_cos, i))", {"min": 3, "max": 3}), ("deref-s", r"\(\*s\)", "(*PTRI(s, m_rot_sin, i))", {"min": 3, "max": 3}),
            ("coeff", r"\b(m_R_diag|m_R_supd|m_R_supd2|m_T_subd|m_T_diag)\.coeff(?:Ref)?\(([^()]+)\)", r"\1[\2]", {"min": 8})]
     loops = {0: "__CPROVER_assigns(i, __CPROVER_object_whole(Q->m_T_subd)) __CPROVER_loop_invariant(0 <= i && i <= Q->m_n - 1) __CPROVER_decreases(Q->m_n - 1 - i)",
              1: "__CPROVER_assigns(i, r, c, s, __CPROVER_object_whole(Q->m_rot_cos), __CPROVER_object_whole(Q->m_rot_sin), __CPROVER_object_whole(Q->m_R_diag), "
                 "__CPROVER_object_whole(Q->m_R_supd), __CPROVER_object_whole(Q->m_R_supd2)) "
                 "__CPROVER_loop_invariant(0 <= i && i <= n1 && __CPROVER_same_object(c, Q->m_rot_cos) && __CPROVER_same_object(s, Q->m_rot_sin) && "
                 "__CPROVER_POINTER_OFFSET(c) == i * sizeof(Scalar) && __CPROVER_POINTER_OFFSET(s) == i * sizeof(Scalar)) __CPROVER_decreases(n1 - i)"}
-    # the c/s pointer walks make the loop-contract version run out of memory (23 GB); bounded stand-in: n <= NB, full unwinding
-    NB = 6
     t, R = cgen.emit(f, "tq_compute", ret_c="void", self_type="TQ", self_name="Q", members=TQ_MEM, param_types={"mat": "Index", "shift": "Scalar"},
-                     pre_rules=pre, loop_contracts={}, contract=spec.frame_contract(["rows <= %d" % NB]))
+                     pre_rules=pre, loop_contracts=loops, contract=spec.frame_contract())
     t = t.replace("TQ *Q, Index mat, Scalar shift", "TQ *Q, Index rows, Index cols, Scalar shift")
     report["TridiagQR::compute"] = R.fired
     alloc = ("  TQ Qv; TQ *Q = &Qv; Q->m_n = nondet_Index(); Q->m_rot_cos = VEC_NEW(0); Q->m_rot_sin = VEC_NEW(0); Q->m_T_diag = VEC_NEW(0); Q->m_T_subd = VEC_NEW(0); "
              "Q->m_R_diag = VEC_NEW(0); Q->m_R_supd = VEC_NEW(0); Q->m_R_supd2 = VEC_NEW(0); Q->m_computed = nondet_bool(); Q->m_shift = nondet_Scalar();\n")
-    groups.append(Group("tridiagqr.compute", TQ_TYPES + t + spec.harness("h", alloc + "  Index rows = nondet_Index(), cols = nondet_Index(); Scalar shift = nondet_Scalar();", "Q, rows, cols, shift", pre_assume=["rows <= %d" % NB]),
-                        "h", enforce="tq_compute", solver="cadical", defines=["SCALAR_DOUBLE"], timeout=600, functions=[QH + ":TridiagQR::compute"], loop_contracts=False,
-                        unwind=NB + 1, bounded="n <= %d (all sizes 2..%d symbolically), loops fully unwound with unwinding assertions" % (NB, NB), expect_classes=["unwind"],
-                        note="band arrays and the c/s pointer walks stay inside their arrays; the loop-contract version exceeds 23 GB"))
+    ptri = ("static Scalar *PTRI(Scalar *p, Scalar *base, Index i) { __CPROVER_assert(p == base + i, \"walking pointer addresses element i of its array (justifies reading it as base + i)\"); return base + i; }\n")
+    groups.append(Group("tridiagqr.compute", TQ_TYPES + ptri + t + spec.harness("h", alloc + "  Index rows = nondet_Index(), cols = nondet_Index(); Scalar shift = nondet_Scalar();", "Q, rows, cols, shift"),
+                        "h", enforce="tq_compute", solver="cadical", defines=["SCALAR_DOUBLE"], timeout=900, functions=[QH + ":TridiagQR::compute"],
+                        expect_classes=["loop_invariant_step", "walking pointer"],
+                        note="UNBOUNDED in n: band arrays and the c/s pointer walks stay inside their arrays (loop contracts; the walking pointers are read through an asserted equality with base + i)"))
     # ---- matrix_QtHQ(Matrix&)
     f = X.locate(QH, "matrix_QtHQ", cls="TridiagQR", params_re=r"^\s*Matrix&")
     spec2 = FSpec("tq_QtHQ", "void", [("TQ *", "Q"), ("Mat *", "dest")],
@@ -221,6 +224,98 @@ void h(void) {
                             unwind=n * n + 2, timeout=900, mem_gb=12, bounded="n = %d (concrete), full unwinding with unwinding assertions" % n,
                             functions=[QH + ":UpperHessenbergQR::compute", QH + ":UpperHessenbergQR::matrix_QtHQ"], expect_classes=["hessqr.", "unwind"],
                             note="raw pointer walks over flattened storage; shape facts are frame facts (literal zeros), memory safety by pointer/bounds checks"))
+    return groups
+
+
+HQS_TYPES = '#include "skel.h"\n' + eigabs.SKEL_MACROS + r'''
+/* Cursor model of a raw pointer into a column-major n x n matrix whose leading dimension is m_n: p <-> (row, col);
+ * p + k (small k) stays in the column, p + m_n is the same row of the next column.  Values are not modelled; the ghost g_zero
+ * records whether the arbitrary-but-fixed cell (g_r, g_c) of the matrix under construction holds a LITERAL zero. */
+typedef struct { Index r, c; } Cur;
+typedef struct { Index m_n; Scalar m_shift; Scalar *m_rot_cos, *m_rot_sin; _Bool m_computed; Mat m_mat_R; } HQS;
+Index g_r, g_c; _Bool g_zero;
+static void compute_rotation(Scalar x, Scalar y, Scalar *r, Scalar *c, Scalar *s) { (void)x; (void)y; *r = nondet_Scalar(); *c = nondet_Scalar(); *s = nondet_Scalar(); }
+static Cur CUR(Mat *M, Index r, Index c)
+{ __CPROVER_assert(0 <= r && r < M->rows && 0 <= c && c < M->cols, "Eigen index assertion: matrix coefficient (row, col) in range"); Cur k; k.r = r; k.c = c; return k; }
+static Cur CUR_COLS(Cur k, Index d) { k.c += d; return k; }
+/* wr: 0 read, 1 write of a computed value, 2 write of the literal 0 */
+static Scalar *CUR_AT(Mat *M, Cur k, Index off, int wr)
+{ __CPROVER_assert(0 <= off && k.r + off < M->rows && 0 <= k.c && k.c < M->cols, "cursor access: p[k] stays inside the column p points into");
+  if (wr && k.r + off == g_r && k.c == g_c) g_zero = (wr == 2);
+  M->cell = nondet_Scalar(); return &M->cell; }
+static void CUR_FILL0(Mat *M, Cur k, Index lo, Index hi)
+{ __CPROVER_assert(0 <= lo && lo <= hi && k.r + hi <= M->rows && 0 <= k.c && k.c < M->cols, "std::fill(p + lo, p + hi, 0): a valid range inside the column p points into");
+  if (k.c == g_c && k.r + lo <= g_r && g_r < k.r + hi) g_zero = 1; }
+'''
+
+
+def hessqr_shape_groups(report):
+    """UpperHessenbergQR::compute / matrix_QtHQ: R exactly upper triangular and Q'HQ exactly upper Hessenberg for EVERY n (cursor model
+    of the pointer walks; the raw-pointer memory safety itself is the bounded hessqr.compute+QtHQ.n<N> groups)."""
+    mem = ["m_n", "m_shift", "m_rot_cos", "m_rot_sin", "m_computed", "m_mat_R"]
+    cur_rules = [("write0", r"\b(Rii|ptr|Yi1?)\[(\w+)\] = 0;", r"(void)CUR_AT(MM, \1, \2, 2);", {"min": 0}),
+                 ("write", r"\b(Rii|ptr|Yi1?)\[(\w+)\] = ([^;]+);", r"*CUR_AT(MM, \1, \2, 1) = \3;", {"min": 2}),
+                 ("read", r"\b(Rii|ptr|Yi1?)\[(\w+)\]", r"(*CUR_AT(MM, \1, \2, 0))", {"min": 2}),
+                 ("nextcol", r"\b(\w+) = (\w+) \+ m_n;", r"\1 = CUR_COLS(\2, 1);", {"min": 1, "max": 1}),
+                 ("decl", r"Scalar\s*\*(\w+), \*(\w+);", r"Cur \1, \2;", {"max": 1})]
+    groups = []
+    f = X.locate(QH, "compute", cls="UpperHessenbergQR")
+    SK = "0 <= g_r && g_r <= NMAX && 0 <= g_c && g_c <= NMAX"
+    spec = FSpec("hqs_compute", "void", [("HQS *", "Q"), ("Index", "rows"), ("Index", "cols"), ("Scalar", "shift")],
+                 pre=[("size >= 1", "1 <= rows && rows <= NMAX && 0 <= cols && cols <= NMAX"), ("Skolem cell", SK)],
+                 post=[("computed, R is n x n, one rotation per sub-diagonal entry", "Q->m_computed && Q->m_n == rows && Q->m_mat_R.rows == rows && Q->m_mat_R.cols == rows && VEC_SIZE(Q->m_rot_cos) == rows - 1 && VEC_SIZE(Q->m_rot_sin) == rows - 1"),
+                       ("R is EXACTLY upper triangular: every cell below the diagonal holds a literal zero", "!(g_c < g_r && g_r < rows) || g_zero")],
+                 exc_post=[("non-square -> invalid_argument", "rows != cols && verif_exc == EXC_invalid_argument")],
+                 frame=["Q->m_n", "Q->m_shift", "Q->m_rot_cos", "Q->m_rot_sin", "Q->m_computed", "Q->m_mat_R", "g_zero"], may_throw=[1], real=QH + ":UpperHessenbergQR::compute")
+    pre = [("rows", r"m_n = mat\.rows\(\);", "m_n = rows;", {"max": 1}), ("cols", r"mat\.cols\(\)", "cols", {"max": 1}),
+           ("resize-R", r"m_mat_R\.resize\(m_n, m_n\);", "m_mat_R = MAT_NEW(m_n, m_n);", {"max": 1}),
+           ("resize-cs", r"\b(m_rot_cos|m_rot_sin)\.resize\(([^;]+)\);", r"\1 = VEC_NEW(\2);", {"min": 2, "max": 2}),
+           ("copy", r"m_mat_R\.noalias\(\) = mat;", "g_zero = 0; MAT_TOUCH(Q->m_mat_R);", {"max": 1}),
+           ("shift", r"m_mat_R\.diagonal\(\)\.array\(\) -= m_shift;", "if (g_r == g_c) g_zero = 0; MAT_TOUCH(Q->m_mat_R);", {"max": 1}),
+           ("Rii", r"(\w+) = &m_mat_R\.coeffRef\(([^,()]+), ([^,()]+)\);", r"\1 = CUR(MM, \2, \3);", {"max": 1}),
+           ("fill", r"std::fill\((\w+) \+ ([^,]+), \1 \+ ([^,]+), Scalar\(0\)\);", r"CUR_FILL0(MM, \1, \2, \3);", {"max": 1}),
+           ("rot", r"(?<![\w>])compute_rotation\(xi, xj, r, c, s\);", "compute_rotation(xi, xj, &r, &c, &s);", {"max": 1}),
+           ("cs", r"\b(m_rot_cos|m_rot_sin)\.coeffRef\(i\)", r"\1[i]", {"min": 2, "max": 2}),
+           ("stepcol", r"\bptr \+= m_n\b", "ptr = CUR_COLS(ptr, 1)", {"max": 1})] + cur_rules
+    below = lambda lim: "(!(0 <= g_c && g_c < g_r && g_r < Q->m_n && g_c < (%s)) || g_zero)" % lim
+    loops = {0: "__CPROVER_assigns(i, xi, xj, r, c, s, Rii, ptr, Q->m_mat_R.cell, g_zero, __CPROVER_object_whole(Q->m_rot_cos), __CPROVER_object_whole(Q->m_rot_sin)) "
+                "__CPROVER_loop_invariant(0 <= i && i <= n1 && %s) __CPROVER_decreases(n1 - i)" % below("i"),
+             1: "__CPROVER_assigns(j, ptr, Q->m_mat_R.cell, g_zero) "
+                "__CPROVER_loop_invariant(i + 1 <= j && j <= Q->m_n && ptr.r == i && ptr.c == j && %s) __CPROVER_decreases(Q->m_n - j)" % below("i + 1")}
+    t1, R = cgen.emit(f, "hqs_compute", ret_c="void", self_type="HQS", self_name="Q", members=mem, param_types={"mat": "Index", "shift": "Scalar"},
+                      pre_rules=pre, loop_contracts=loops, contract=spec.frame_contract())
+    t1 = t1.replace("HQS *Q, Index mat, Scalar shift", "HQS *Q, Index rows, Index cols, Scalar shift").replace("MM", "(&Q->m_mat_R)")
+    report["UpperHessenbergQR::compute(shape)"] = R.fired
+    alloc = "  HQS Qv; HQS *Q = &Qv; Q->m_n = nondet_Index(); Q->m_rot_cos = VEC_NEW(0); Q->m_rot_sin = VEC_NEW(0); Q->m_mat_R = MAT_NEW(0, 0); Q->m_computed = nondet_bool(); g_zero = nondet_bool();\n"
+    groups.append(Group("hessqr.shape.compute", HQS_TYPES + t1 + spec.harness("h", alloc + "  Index rows = nondet_Index(), cols = nondet_Index(); Scalar shift = nondet_Scalar();", "Q, rows, cols, shift"),
+                        "h", enforce="hqs_compute", solver="cadical", defines=["SCALAR_DOUBLE"], timeout=900, functions=[QH + ":UpperHessenbergQR::compute"],
+                        expect_classes=["loop_invariant_step", "cursor access", "std::fill"],
+                        note="UNBOUNDED in n: cursor model of the Rii / ptr walks (p + m_n = next column); shape facts are frame facts about which cells receive a literal zero"))
+    g = X.locate(QH, "matrix_QtHQ", cls="UpperHessenbergQR")
+    spec2 = FSpec("hqs_QtHQ", "void", [("HQS *", "Q"), ("Mat *", "dest")],
+                  pre=[("object as left by compute()", "1 <= Q->m_n && Q->m_n <= NMAX && Q->m_mat_R.rows == Q->m_n && Q->m_mat_R.cols == Q->m_n && VEC_SIZE(Q->m_rot_cos) == Q->m_n - 1 && VEC_SIZE(Q->m_rot_sin) == Q->m_n - 1"),
+                       ("destination is some matrix", "0 <= dest->rows && dest->rows <= NMAX && 0 <= dest->cols && dest->cols <= NMAX"), ("Skolem cell", SK),
+                       ("R is exactly upper triangular (postcondition of compute, at the Skolem cell)", "!(g_c < g_r && g_r < Q->m_n) || g_zero")],
+                  post=[("dest is n x n", "dest->rows == Q->m_n && dest->cols == Q->m_n"),
+                        ("Q'HQ = RQ + sI is EXACTLY upper Hessenberg: every cell below the first sub-diagonal still holds the literal zero copied from R", "!(g_c + 1 < g_r && g_r < Q->m_n) || g_zero")],
+                  exc_post=[("not computed -> logic_error", "!Q->m_computed && verif_exc == EXC_logic_error")],
+                  frame=["*dest", "g_zero"], may_throw=[3], real=QH + ":UpperHessenbergQR::matrix_QtHQ")
+    pre2 = [("resize", r"dest\.resize\(m_n, m_n\);", "(*dest) = MAT_NEW(m_n, m_n);", {"max": 1}),
+            ("copy", r"dest\.noalias\(\) = m_mat_R;", "__CPROVER_assert(Q->m_mat_R.rows == dest->rows && Q->m_mat_R.cols == dest->cols, @Q@Eigen: assignment needs equal shapes@Q@); /* copy: the Skolem cell keeps its literal-zero status */ MAT_TOUCH(*dest);", {"max": 1}),
+            ("cs", r"\b(m_rot_cos|m_rot_sin)\.coeff\(i\)", r"\1[i]", {"min": 2, "max": 2}),
+            ("Yi", r"(\w+) = &dest\.coeffRef\(([^,()]+), ([^,()]+)\);", r"\1 = CUR(MM, \2, \3);", {"max": 1}),
+            ("shift", r"dest\.diagonal\(\)\.array\(\) \+= m_shift;", "if (g_r == g_c) g_zero = 0; MAT_TOUCH(*dest);", {"max": 1})] + cur_rules
+    hz = "(!(0 <= g_c && g_c + 1 < g_r && g_r < Q->m_n) || g_zero)"
+    loops2 = {0: "__CPROVER_assigns(i, dest->cell, g_zero) __CPROVER_loop_invariant(0 <= i && i <= n1 && %s) __CPROVER_decreases(n1 - i)" % hz,
+              1: "__CPROVER_assigns(j, dest->cell, g_zero) __CPROVER_loop_invariant(0 <= j && j <= i2 && %s) __CPROVER_decreases(i2 - j)" % hz}
+    t2, R = cgen.emit(g, "hqs_QtHQ", ret_c="void", self_type="HQS", self_name="Q", members=mem, param_types={"dest": "Mat *"}, pre_rules=pre2, loop_contracts=loops2, contract=spec2.frame_contract())
+    t2 = t2.replace("MM", "dest")
+    report["UpperHessenbergQR::matrix_QtHQ(shape)"] = R.fired
+    alloc2 = ("  HQS Qv; HQS *Q = &Qv; Q->m_n = nondet_Index(); __CPROVER_assume(0 <= Q->m_n && Q->m_n <= NMAX); Q->m_rot_cos = VEC_NEW(Q->m_n > 0 ? Q->m_n - 1 : 0); Q->m_rot_sin = VEC_NEW(Q->m_n > 0 ? Q->m_n - 1 : 0); "
+              "Q->m_mat_R = MAT_NEW(Q->m_n, Q->m_n); Q->m_computed = nondet_bool(); g_zero = nondet_bool();\n  Index dr = nondet_Index(), dc = nondet_Index(); __CPROVER_assume(0 <= dr && dr <= NMAX && 0 <= dc && dc <= NMAX); Mat D = MAT_NEW(dr, dc); Mat *dest = &D;\n")
+    groups.append(Group("hessqr.shape.matrix_QtHQ", HQS_TYPES + t2 + spec2.harness("h", alloc2, "Q, dest"), "h", enforce="hqs_QtHQ", solver="cadical", defines=["SCALAR_DOUBLE"], timeout=900,
+                        functions=[QH + ":UpperHessenbergQR::matrix_QtHQ"], expect_classes=["loop_invariant_step", "cursor access"],
+                        note="UNBOUNDED in n: the column sweeps write only cells with row <= col + 1; the diagonal shift only diagonal cells"))
     return groups
 
 
@@ -454,7 +549,118 @@ void h(void) {
 
 
 def qr_groups(tier, report, pre, rot):
-    return tridiagqr_groups(report) + hessqr_groups(tier, report) + dsqr_groups(tier, report)
+    return tridiagqr_groups(report) + hessqr_shape_groups(report) + hessqr_groups(tier, report) + dsqr_groups(tier, report)
+
+
+PK_TYPES = '#include "skel.h"\n' + r'''
+/* Packed-cursor model of the lower-triangular storage: column c holds rows c..n-1; a pointer into it is (column, offset from the column
+ * head); the one-past-the-end address of column c is the head of column c+1.  Values are not modelled (one scratch cell). */
+typedef struct { Index c, o; } PCur;
+typedef struct { Index m_n; Index *m_perm; Scalar cell; } BKP;
+#define SWAP_S(a, b) do { Scalar t_ = (a); (a) = (b); (b) = t_; } while (0)
+static PCur PCOL(BKP *B, Index k)
+{ __CPROVER_assert(0 <= k && k < B->m_n, "packed storage: col_pointer(k) needs 0 <= k < n (m_colptr has n entries)"); PCur p; p.c = k; p.o = 0; return p; }
+static PCur PADDR(BKP *B, Index i, Index j)      /* &coeff(i, j): the element or the one-past-the-end address of column j */
+{ __CPROVER_assert(0 <= j && j < B->m_n && j <= i && i <= B->m_n, "packed storage: &coeff(i, j) needs 0 <= j <= i <= n, j < n"); PCur p; p.c = j; p.o = i - j; return p; }
+static Scalar *PELEM(BKP *B, Index i, Index j)
+{ __CPROVER_assert(0 <= j && j <= i && i < B->m_n, "packed storage: coeff(i, j) needs 0 <= j <= i < n"); B->cell = nondet_Scalar(); return &B->cell; }
+static Scalar *PDEREF_AT(BKP *B, PCur p, Index k)
+{ __CPROVER_assert(0 <= p.c && p.c < B->m_n && 0 <= p.o + k && p.o + k < B->m_n - p.c, "packed storage: pointer dereference stays inside the column it points into"); B->cell = nondet_Scalar(); return &B->cell; }
+static Scalar *PDEREF(BKP *B, PCur p) { return PDEREF_AT(B, p, 0); }
+static PCur PADD(PCur p, Index k) { p.o += k; return p; }
+static Index PDIFF(BKP *B, PCur b, PCur a)        /* b - a for pointers into the same column (b may be the head of the next column) */
+{ if (b.c == a.c) return b.o - a.o;
+  __CPROVER_assert(b.c == a.c + 1 && b.o == 0, "packed storage: pointer difference / comparison within one column (or against its one-past-the-end address)");
+  return (B->m_n - a.c) - a.o; }
+static _Bool PLT(BKP *B, PCur a, PCur b) { return PDIFF(B, b, a) > 0; }
+static void PSWAP_RANGES(BKP *B, PCur f1, PCur l1, PCur f2)
+{ Index len = PDIFF(B, l1, f1);
+  __CPROVER_assert(len >= 0, "std::swap_ranges: first <= last");
+  __CPROVER_assert(0 <= f1.c && f1.c < B->m_n && 0 <= f1.o && f1.o + len <= B->m_n - f1.c, "std::swap_ranges: first range inside its column");
+  __CPROVER_assert(0 <= f2.c && f2.c < B->m_n && 0 <= f2.o && f2.o + len <= B->m_n - f2.c, "std::swap_ranges: second range inside its column");
+  __CPROVER_assert(f1.c != f2.c || len == 0, "std::swap_ranges: ranges do not overlap");
+  B->cell = nondet_Scalar(); }
+#define NMAXP 1000000
+'''
+
+
+def bkldlt_pivoting_unbounded(report):
+    """The pivot search and the symmetric interchanges of BKLDLT on the packed-cursor model: UNBOUNDED in n.  Proves the contract that
+    bk.compute assumes for permutate_mat, the preconditions of every callee at its call sites, and that every packed-storage access is
+    inside its column."""
+    BH = "LinAlg/BKLDLT.h"
+    mem = ["m_n", "m_perm"]
+    INV = "2 <= B->m_n && B->m_n <= NMAXP && VEC_SIZE(B->m_perm) == B->m_n"
+
+    def pf(b, R):
+        b = R.sub("is_same", r"std::is_same<Scalar, RealScalar>::value", "1", b, min_fires=0)
+        b = R.call_rewrite("conj", r"ScalarOp<Scalar>::conj(?=\()", lambda m, a: "(%s)" % a[0] if len(a) == 1 else None, b)
+        b = R.sub("swap_ranges", r"std::swap_ranges\(&coeff\(([^,]+), ([^()]+)\), col_pointer\(([^()]+)\), &coeff\(([^,]+), ([^()]+)\)\);",
+                  r"PSWAP_RANGES(B, PADDR(B, \1, \2), PCOL(B, \3), PADDR(B, \4, \5));", b, min_fires=0)
+        b = R.sub("src-decl", r"Scalar\* src = &coeff\(([^,]+), ([^()]+)\);", r"PCur src = PADDR(B, \1, \2);", b, min_fires=0)
+        b = R.sub("src-inc", r"\bsrc\+\+", "src.o++", b, min_fires=0)
+        b = R.sub("src-deref", r"\*src\b", "(*PDEREF(B, src))", b, min_fires=0)
+        b = R.sub("head", r"const Scalar\* head = col_pointer\(([^()]+)\);", r"PCur head = PCOL(B, \1);", b, min_fires=0)
+        b = R.sub("end", r"const Scalar\* end = col_pointer\(([^()]+)\);", r"PCur end = PCOL(B, \1);", b, min_fires=0)
+        b = R.sub("head1", r"\bhead\[(\d)\]", r"(*PDEREF_AT(B, head, \1))", b, min_fires=0)
+        b = R.sub("ptr-for", r"const Scalar\* ptr = head \+ (\d); ptr < end; ptr\+\+", r"PCur ptr = PADD(head, \1); PLT(B, ptr, end); ptr.o++", b, min_fires=0)
+        b = R.sub("ptr-deref", r"\*ptr\b", "(*PDEREF(B, ptr))", b, min_fires=0)
+        b = R.sub("ptr-diff", r"\bptr - head\b", "PDIFF(B, ptr, head)", b, min_fires=0)
+        b = R.call_rewrite("swap", r"std::swap(?=\()", lambda m, a: "SWAP_S(%s, %s)" % tuple(a) if len(a) == 2 else None, b)
+        b = R.call_rewrite("coeff", r"(?<![\w&])coeff(?=\()", lambda m, a: "(*PELEM(B, %s, %s))" % tuple(a) if len(a) == 2 else None, b)
+        b = R.call_rewrite("diag", r"(?<![\w&])diag_coeff(?=\()", lambda m, a: "(*PELEM(B, %s, %s))" % (a[0], a[0]) if len(a) == 1 else None, b)
+        if re.search(r"col_pointer\(|&coeff\(|std::", b):
+            raise X.ExtractionBreak("BKLDLT pivoting kernel: an unrecognised pointer idiom remains: %r" % re.search(r".{30}(col_pointer\(|&coeff\(|std::).{30}", b, re.S).group(0))
+        return b
+    parts = []
+    pre_of = {
+        "interchange_rows": "c1 == 0 && -1 <= c2 && c2 <= r1 && c2 <= r2 && 0 <= r1 && r1 < B->m_n && 0 <= r2 && r2 < B->m_n",
+        "pivoting_1x1": "0 <= k && k <= r && r < B->m_n",
+        "pivoting_2x2": "0 <= k && k + 1 <= r && r < B->m_n && k <= p && p < B->m_n",
+        "find_lambda": "0 <= k && k <= B->m_n - 2",
+        "find_sigma": "0 <= k && k < r && r < B->m_n && (*p) == k",
+        "permutate_mat": "0 <= k && k < B->m_n - 1",
+    }
+    lc = {
+        "interchange_rows": {0: "__CPROVER_assigns(j, B->cell) __CPROVER_loop_invariant(c1 <= j && j <= c2 + 1) __CPROVER_decreases(c2 + 1 - j)"},
+        "pivoting_1x1": {k_: "__CPROVER_assigns(j, src, B->cell) __CPROVER_loop_invariant(k + 1 <= j && j <= r && src.c == k && src.o == j - k) __CPROVER_decreases(r - j)" for k_ in (0, 1)},
+        "find_lambda": {0: "__CPROVER_assigns(ptr, lambda, *r, B->cell) __CPROVER_loop_invariant(ptr.c == k && 2 <= ptr.o && ptr.o <= B->m_n - k && k + 1 <= (*r) && (*r) <= B->m_n - 1) __CPROVER_decreases(B->m_n - k - ptr.o)"},
+        "find_sigma": {0: "__CPROVER_assigns(j, sigma, *p, B->cell) __CPROVER_loop_invariant(k <= j && j <= r && k <= (*p) && (*p) < B->m_n && (*p) != r) __CPROVER_decreases(r - j)"},
+    }
+    for name, kw in (("interchange_rows", {}), ("pivoting_1x1", {}),
+                     ("pivoting_2x2", dict(extra_rules=[("p1", r"(?<![\w>])pivoting_1x1\(", "pivoting_1x1(B, ", {"min": 2, "max": 2})])),
+                     ("find_lambda", dict(param_types={"r": "REF"}, ret_c="Scalar")),
+                     ("find_sigma", dict(param_types={"p": "REF"}, ret_c="Scalar", extra_rules=[("fl", r"find_lambda\(r, \(\*p\)\)", "find_lambda(B, r, p)", {"max": 1})])),
+                     ("permutate_mat", dict(ret_c="_Bool", param_types={"alpha": "Scalar"},
+                                            extra_rules=[("fl", r"find_lambda\(k, r\)", "find_lambda(B, k, &r)", {"max": 1}), ("fs", r"find_sigma\(k, r, p\)", "find_sigma(B, k, r, &p)", {"max": 1}),
+                                                         ("p1", r"(?<![\w>])pivoting_1x1\(k, r\);", "pivoting_1x1(B, k, r);", {"max": 1}), ("p2", r"(?<![\w>])pivoting_2x2\(k, r, p\);", "pivoting_2x2(B, k, r, p);", {"max": 1}),
+                                                         ("ir", r"(?<![\w>])interchange_rows\(", "interchange_rows(B, ", {"min": 3, "max": 3})]))):
+        f = X.locate(BH, name, cls="BKLDLT")
+        t, R = cgen.emit(f, name, self_type="BKP", self_name="B", members=mem, post_fn=pf, loop_contracts=lc.get(name, {}),
+                         pre_body=' __CPROVER_assert(%s, "precondition of %s at its call site");' % (pre_of[name], name), **kw)
+        report["BKLDLT::" + name + "(packed-cursor)"] = R.fired
+        parts.append(t)
+    h = r'''
+#line 1 "harness/kernels.bkldlt.pivoting"
+void h(void) {
+  BKP Bv; BKP *B = &Bv; B->m_n = nondet_Index(); __CPROVER_assume(2 <= B->m_n && B->m_n <= NMAXP); B->m_perm = IVEC_NEW(B->m_n);
+  Index k = nondet_Index(); __CPROVER_assume(0 <= k && k < B->m_n - 1);
+  Index q = nondet_Index(); __CPROVER_assume(0 <= q && q < B->m_n);
+  /* precondition (asserted at the call site in bk.compute): positions not yet processed still hold the identity record */
+  __CPROVER_assume(B->m_perm[k] == k);
+  Index old_q = B->m_perm[q];
+  _Bool one = permutate_mat(B, k, (Scalar)0.6403882032022076);
+  if (one) __CPROVER_assert(k <= B->m_perm[k] && B->m_perm[k] < B->m_n, "bkldlt.permutate_mat: a 1x1 pivot records a row in [k, n) (the identity record is kept when no interchange is needed)");
+  else __CPROVER_assert(B->m_perm[k] < 0 && B->m_perm[k + 1] < 0 && -B->m_perm[k] - 1 >= k && -B->m_perm[k] - 1 < B->m_n && -B->m_perm[k + 1] - 1 >= k + 1 && -B->m_perm[k + 1] - 1 < B->m_n,
+                        "bkldlt.permutate_mat: a 2x2 pivot records two negative entries with targets in range (the contract assumed by bk.compute)");
+  if (q != k && !(q == k + 1 && !one)) __CPROVER_assert(B->m_perm[q] == old_q, "bkldlt.permutate_mat: no other entry of the pivot record is written");
+  CANARY();
+}
+'''
+    return [Group("bkldlt.pivoting.unbounded", PK_TYPES + "".join(parts) + h, "h", loop_contracts=True, solver="cadical", defines=["SCALAR_FLOAT"], timeout=900,
+                  functions=[BH + ":" + x for x in ("find_lambda", "find_sigma", "pivoting_1x1", "pivoting_2x2", "interchange_rows", "permutate_mat")],
+                  expect_classes=["loop_invariant_step", "packed storage", "precondition of", "bkldlt.permutate_mat"],
+                  note="UNBOUNDED in n on the packed-cursor model (column, offset); the real pointer arithmetic of the same bodies is the bounded bkldlt.kernels.n<N> groups")]
 
 
 def bkldlt_groups(tier, report):
@@ -521,6 +727,7 @@ void h(void) {
 }
 '''
     groups = []
+    groups += bkldlt_pivoting_unbounded(report)
     # ---- copy_data: which entry of the user's matrix lands where in the packed storage, for both triangles and both
     # storage orders.  conj() is an uninterpreted function, so the generic (complex Hermitian capable) statement is proved:
     # packed(i, j) = A(i, j) from the lower triangle, conj(A(j, i)) from the upper one, minus the shift on the diagonal.
